@@ -8,6 +8,7 @@ import (
 	"github.com/yorkie-team/yorkie/pkg/document"
 	"github.com/yorkie-team/yorkie/pkg/document/crdt"
 	"github.com/yorkie-team/yorkie/pkg/document/json"
+	"github.com/yorkie-team/yorkie/pkg/document/time"
 
 	"verif/internal/gen"
 	"verif/internal/sim"
@@ -195,6 +196,10 @@ func textInsertBeforeTombstone(t *json.Text, at int) bool {
 		return false
 	}
 	nodes := t.Text.Nodes()
+	if len(nodes) > 0 && from.ID().CreatedAt().Compare(time.InitialTicket) == 0 {
+		// in front of everything: the anchor is the head, which Nodes() does not list
+		return nodes[0].RemovedAt() != nil
+	}
 	for i, n := range nodes {
 		if !n.ID().Equal(from.ID()) {
 			continue
